@@ -20,12 +20,15 @@ import (
 	"os"
 	"sort"
 	"strings"
+	"sync"
 	"testing"
 	"time"
 
 	"github.com/ipfs/ipfs-cluster/api"
 	"github.com/ipfs/ipfs-cluster/datastore/inmem"
 
+	ds "github.com/ipfs/go-datastore"
+	query "github.com/ipfs/go-datastore/query"
 	libp2p "github.com/libp2p/go-libp2p"
 	crypto "github.com/libp2p/go-libp2p-core/crypto"
 	host "github.com/libp2p/go-libp2p-core/host"
@@ -39,6 +42,30 @@ type vR2Cmd struct {
 	Node int      `json:"node"` // relative to the leader
 	Pin  *vC01Pin `json:"pin,omitempty"`
 	K    int      `json:"k,omitempty"` // rpcfail: the next K redirected Consensus calls that reach this member fail before they commit
+	// down: a LogPin of this pin (on a cid no other command uses) is submitted to the member WHILE it shuts down, at the point
+	// where Shutdown writes its final snapshot
+	Race *vC01Pin `json:"race,omitempty"`
+}
+
+// vR2Store is the datastore handed to NewConsensus: a pass-through which can run a function the next time the pinset is
+// enumerated (dsstate.Marshal, i.e. while a snapshot is being written). It serves to place a call at a chosen point of
+// Shutdown; it changes nothing of what is stored or returned.
+type vR2Store struct {
+	ds.Datastore
+	mu   sync.Mutex
+	hook func()
+}
+
+func (s *vR2Store) arm(f func()) { s.mu.Lock(); s.hook = f; s.mu.Unlock() }
+func (s *vR2Store) Query(q query.Query) (query.Results, error) {
+	s.mu.Lock()
+	h := s.hook
+	s.hook = nil
+	s.mu.Unlock()
+	if h != nil {
+		h()
+	}
+	return s.Datastore.Query(q)
 }
 
 type vR2Case struct {
@@ -57,6 +84,7 @@ func (s *vR2ConsSvc) injected() bool {
 	}
 	atomic.StoreInt32(&s.n.failRPC, 0)
 	atomic.AddInt32(&s.n.realN, 1)
+	atomic.StoreInt32(&s.n.rig.handledBy, int32(s.n.idx)) // this member runs the redirected commit (nested redirects: the last one)
 	return false
 }
 
@@ -91,11 +119,14 @@ type vR2Node struct {
 	up     bool
 	// redirected Consensus calls: still to fail / failed by injection / handed to the real component
 	failRPC, injectedN, realN int32
+	store                     *vR2Store
+	rig                       *vR2Rig
 }
 
 type vR2Rig struct {
-	nodes []*vR2Node
-	tag   string
+	nodes     []*vR2Node
+	tag       string
+	handledBy int32 // the member that ran the last redirected commit (-1: none since it was reset)
 }
 
 func vR2NewRig(n int, tag string) (*vR2Rig, error) {
@@ -109,7 +140,7 @@ func vR2NewRig(n int, tag string) (*vR2Rig, error) {
 		if err != nil {
 			return nil, err
 		}
-		nd := &vR2Node{idx: i, priv: priv, id: id, folder: fmt.Sprintf("vr2-%s-%d", tag, i), rec: &vC01Recorder{}}
+		nd := &vR2Node{idx: i, priv: priv, id: id, folder: fmt.Sprintf("vr2-%s-%d", tag, i), rec: &vC01Recorder{}, rig: r}
 		os.RemoveAll(nd.folder)
 		r.nodes = append(r.nodes, nd)
 	}
@@ -154,7 +185,8 @@ func (r *vR2Rig) startNode(n *vR2Node, peers []peer.ID) error {
 	cfg.RaftConfig.SnapshotInterval = time.Hour
 	cfg.RaftConfig.TrailingLogs = 1
 	n.cfg = cfg
-	cc, err := NewConsensus(h, cfg, inmem.New(), false)
+	n.store = &vR2Store{Datastore: inmem.New()}
+	cc, err := NewConsensus(h, cfg, n.store, false)
 	if err != nil {
 		h.Close()
 		return err
@@ -321,8 +353,13 @@ func vR2Gen(r *vRand, n int) vR2Case {
 			c.Cmds = append(c.Cmds, write())
 		}
 		c.Cmds = append(c.Cmds, vR2Cmd{Op: "snap", Node: 0}, write(), vR2Cmd{Op: "up"}, vR2Cmd{Op: "obs"})
+		// the LEADER shuts down while a pin is submitted to it (the others keep the quorum), comes back, everybody is observed
+		c.Cmds = append(c.Cmds, vR2Cmd{Op: "down", Node: 0, Race: vC01GenPin(r, ncids, 0, false)}, write(), vR2Cmd{Op: "up"}, vR2Cmd{Op: "obs"})
 	} else {
-		c.Cmds = append(c.Cmds, vR2Cmd{Op: "down", Node: 0}, vR2Cmd{Op: "up"}, vR2Cmd{Op: "obs"}, write(), write(), vR2Cmd{Op: "snap", Node: 0}, write())
+		c.Cmds = append(c.Cmds, vR2Cmd{Op: "down", Node: 0, Race: vC01GenPin(r, ncids, 0, false)}, vR2Cmd{Op: "up"}, vR2Cmd{Op: "obs"}, write(), write(), vR2Cmd{Op: "snap", Node: 0}, write())
+		if r.chance(50) {
+			c.Cmds = append(c.Cmds, vR2Cmd{Op: "down", Node: 0, Race: vC01GenPin(r, ncids, 0, false)}, vR2Cmd{Op: "up"}, vR2Cmd{Op: "obs"})
+		}
 	}
 	return c
 }
@@ -373,6 +410,7 @@ func vR2Run(c vR2Case, tag string) (res vR2Result) {
 	var obsJSON []interface{}
 	restartedAny := false
 	firstPhase := true
+	raceN, raceAcked, raceRefused, raceRefusedInLog, raceSkipped := 0, 0, 0, 0, 0
 	catchUp := func(n *vR2Node) {
 		for applied[n.idx] < nlog {
 			evs = append(evs, fmt.Sprintf("OApply %d %d", n.idx, applied[n.idx]))
@@ -446,6 +484,7 @@ func vR2Run(c vR2Case, tag string) (res vR2Result) {
 			}
 			var err error
 			inj0, real0 := rig.injectedSince(0), rig.realSince(0)
+			atomic.StoreInt32(&rig.handledBy, -1)
 			if cmd.Op == "pin" && p.Name == vC01BadName {
 				// a pin that cannot be serialised (name not valid UTF-8) is refused by whichever member commits it (S24), so
 				// at a non-leader member the refusal comes back through the redirect to the leader: LogPin must report it.
@@ -475,6 +514,13 @@ func vR2Run(c vR2Case, tag string) (res vR2Result) {
 			}
 			evs = append(evs, fmt.Sprintf("OCommit %d", len(cmds)-1))
 			nlog++
+			// acknowledged: the member whose CommitOp returned nil (this one, or the one the last redirect reached) has applied it
+			committer := n
+			if h := atomic.LoadInt32(&rig.handledBy); h >= 0 && int(h) < len(rig.nodes) {
+				committer = rig.nodes[h]
+			}
+			catchUp(committer)
+			evs = append(evs, fmt.Sprintf("OAck %d %d", len(cmds)-1, committer.idx))
 		case "rpcfail":
 			if n := resolve(cmd.Node); n != nil && n.up {
 				k := cmd.K
@@ -545,10 +591,75 @@ func vR2Run(c vR2Case, tag string) (res vR2Result) {
 			}
 			before := applied[n.idx]
 			sid0 := vR2SnapID(n.folder)
+			// a pin submitted to the member while it shuts down: the call is started when Shutdown writes its final snapshot
+			// (the datastore is enumerated) and is given a moment to get as far as it can
+			var raceRes chan error
+			var racePin vC01Pin
+			raceFired := make(chan struct{})
+			if cmd.Race != nil && raceN < 3 {
+				racePin = *cmd.Race
+				racePin.sanitize()
+				racePin.Origins = nil
+				racePin.Meta = nil
+				if racePin.Name == vC01BadName {
+					racePin.Name = 0
+				}
+				racePin.Cid = 5 + raceN // a cid no other command of an R2 script writes: present <=> the op is in the log
+				raceN++
+				raceRes = make(chan error, 1)
+				cc, rp := n.cc, racePin.real()
+				atomic.StoreInt32(&rig.handledBy, -1)
+				n.store.arm(func() {
+					close(raceFired)
+					go func() { raceRes <- cc.LogPin(ctx, rp) }()
+					select {
+					case e := <-raceRes:
+						raceRes <- e
+					case <-time.After(300 * time.Millisecond):
+					}
+				})
+			}
 			rig.down(n)
 			if vR2SnapID(n.folder) != sid0 { // Shutdown wrote a new snapshot
 				evs = append(evs, fmt.Sprintf("OSnapReq %d true", n.idx), fmt.Sprintf("OPersist %d", n.idx))
 			}
+			raceErrored := false
+			if raceRes != nil {
+				n.store.arm(nil)
+				fired := false
+				select {
+				case <-raceFired:
+					fired = true
+				default:
+				}
+				if !fired {
+					raceSkipped++ // Shutdown wrote no snapshot (nothing new): no call was made
+				} else {
+					select {
+					case e := <-raceRes:
+						if e == nil {
+							// acknowledged: committed and applied at the member whose CommitOp returned nil, before the stop
+							raceAcked++
+							cmds = append(cmds, "LPin "+racePin.coq())
+							evs = append(evs, fmt.Sprintf("OCommit %d", len(cmds)-1))
+							nlog++
+							committer := n
+							if h := atomic.LoadInt32(&rig.handledBy); h >= 0 && int(h) < len(rig.nodes) {
+								committer = rig.nodes[h]
+							}
+							catchUp(committer)
+							evs = append(evs, fmt.Sprintf("OAck %d %d", len(cmds)-1, committer.idx))
+						} else {
+							raceRefused++
+							raceErrored = true
+						}
+					case <-time.After(90 * time.Second):
+						res.skipped = "the LogPin submitted during Shutdown never returned"
+						return
+					}
+				}
+			}
+			evs = append(evs, fmt.Sprintf("OStopped %d", n.idx))
 			// OfflineState of the stopped peer = its newest snapshot
 			st, err := OfflineState(n.cfg, inmem.New())
 			if err != nil {
@@ -571,6 +682,48 @@ func vR2Run(c vR2Case, tag string) (res vR2Result) {
 			}
 			evs = append(evs, fmt.Sprintf("OOffline %d %s", n.idx, cqList(ps)))
 			obsJSON = append(obsJSON, map[string]interface{}{"node": n.idx, "offline": off, "at": before})
+			if raceErrored {
+				// an op reported as an error may still be in the log: its cid is written by nothing else, so it is in the log iff
+				// a member that has caught up holds it. With no other member running, this one is started again to find out.
+				anyUp := false
+				for _, m := range rig.nodes {
+					if m.up {
+						anyUp = true
+					}
+				}
+				if !anyUp {
+					if err := rig.startNode(n, ids); err != nil || !rig.waitReady(n, 40*time.Second) {
+						res.skipped = "restart after a refused race failed"
+						return
+					}
+					evs = append(evs, fmt.Sprintf("ORestart %d", n.idx))
+					applied[n.idx] = 0
+					restartedAny = true
+				}
+				if !rig.caughtUp(30 * time.Second) {
+					res.skipped = "peers did not catch up"
+					return
+				}
+				for _, m := range rig.nodes {
+					if !m.up {
+						continue
+					}
+					pins, ok := vR2List(m.cc)
+					if !ok {
+						res.skipped = "state not served"
+						return
+					}
+					for _, q := range pins {
+						if q.Cid == racePin.Cid {
+							cmds = append(cmds, "LPin "+racePin.coq())
+							evs = append(evs, fmt.Sprintf("OCommit %d", len(cmds)-1))
+							nlog++
+							raceRefusedInLog++
+						}
+					}
+					break
+				}
+			}
 		case "up":
 			for _, n := range rig.nodes {
 				if !n.up {
@@ -620,7 +773,8 @@ func vR2Run(c vR2Case, tag string) (res vR2Result) {
 		return
 	}
 	res.term = fmt.Sprintf("(%d, %s,\n   %s)", c.N, cqList(cmds), "["+strings.Join(evs, ";\n    ")+"]")
-	res.obs = map[string]interface{}{"observations": obsJSON, "log_len": nlog, "unserialisable_refused": refused, "redirect_failures_reported": out_injected}
+	res.obs = map[string]interface{}{"observations": obsJSON, "log_len": nlog, "unserialisable_refused": refused, "redirect_failures_reported": out_injected,
+		"race_acked": raceAcked, "race_refused": raceRefused, "race_refused_but_in_log": raceRefusedInLog, "race_no_snapshot": raceSkipped}
 	res.nontriv = restartedAny && nlog >= 2
 	return
 }
@@ -667,5 +821,10 @@ func TestVerifR2C01(t *testing.T) {
 		}
 		out.add(res.term, c, res.obs, res.nontriv)
 		out.count(fmt.Sprintf("r2_nodes=%d", c.N))
+		for _, k := range []string{"race_acked", "race_refused", "race_refused_but_in_log", "race_no_snapshot"} {
+			if v, ok := res.obs[k].(int); ok && v > 0 {
+				out.dist["r2_"+k] += v
+			}
+		}
 	}
 }
